@@ -53,7 +53,7 @@ def recheck(names, checks):
                 print(f"[{name}] {c}: rc={rc} {viol[0] if viol else ''}", flush=True)
         finally:
             sh("git -C /repo checkout -- .")
-            sh(f"python3 {ROOT}/tools/decls.py /repo/src {ROOT}/lean/LruMem/Generated/Decls.lean")
+            sh(f"python3 {ROOT}/tools/decls.py /repo/src {ROOT}/lean/LruMem/Generated/Decls.lean; python3 {ROOT}/tools/memdecls.py /repo/src {ROOT}/lean/LruMem/Generated/MemDecls.lean")
             for f in os.listdir(os.path.join(ROOT, "replays")):
                 os.remove(os.path.join(ROOT, "replays", f))
         meta["rechecked_at_verif_commit"] = sh("git -C /verif rev-parse --short HEAD")[1].strip()
@@ -130,7 +130,7 @@ def main():
             print(f"   {c}: rc={rc} {viol[0] if viol else ''}")
     finally:
         sh("git -C /repo checkout -- .")
-        sh(f"python3 {ROOT}/tools/decls.py /repo/src {ROOT}/lean/LruMem/Generated/Decls.lean")
+        sh(f"python3 {ROOT}/tools/decls.py /repo/src {ROOT}/lean/LruMem/Generated/Decls.lean; python3 {ROOT}/tools/memdecls.py /repo/src {ROOT}/lean/LruMem/Generated/MemDecls.lean")
         # replays written while the seed was applied are not evidence about the real tree
         for f in os.listdir(os.path.join(ROOT, "replays")):
             os.remove(os.path.join(ROOT, "replays", f))
